@@ -830,9 +830,12 @@ class map_async(Stream):
         Stream.__init__(self, upstream, stream_name=stream_name, ensure_io_loop=True)
         self.work_task = None
 
+    _worker = None  # the worker created last
+
     def _create_work_task(self) -> Tuple[asyncio.Event, asyncio.Task[None]]:
         stop_work = asyncio.Event()
-        work_task = self._create_task(self.work_callback(stop_work))
+        work_task = self._create_task(self.work_callback(stop_work, self._worker))
+        self._worker = work_task
         return stop_work, work_task
 
     def start(self):
@@ -872,21 +875,36 @@ class map_async(Stream):
             return coro
         return self.loop.asyncio_loop.create_task(coro)
 
-    async def work_callback(self, stop_work: asyncio.Event):
-        while not stop_work.is_set():
-            task, metadata = await self.work_queue.get()
-            self.work_queue.task_done()
-            try:
-                result = await task
-            except Exception as e:
-                logger.exception(e)
-                if self.stop_on_exception:
-                    self.stop()
-            else:
-                results = self._emit(result, metadata=metadata)
-                if results:
-                    await asyncio.gather(*results)
-                self._release_refs(metadata)
+    async def work_callback(self, stop_work: asyncio.Event, previous=None):
+        if previous is not None and not previous.done():
+            # One worker at a time, or results could overtake each other: the
+            # worker that was told to stop finishes the job it has in hand.
+            await asyncio.wait([previous])
+        stopped = asyncio.ensure_future(stop_work.wait())
+        try:
+            while not stop_work.is_set():
+                # wait for a job, or for the order to stop
+                job = asyncio.ensure_future(self.work_queue.get())
+                await asyncio.wait([job, stopped],
+                                   return_when=asyncio.FIRST_COMPLETED)
+                if not job.done():
+                    job.cancel()
+                    break
+                task, metadata = job.result()
+                self.work_queue.task_done()
+                try:
+                    result = await task
+                except Exception as e:
+                    logger.exception(e)
+                    if self.stop_on_exception:
+                        self.stop()
+                else:
+                    results = self._emit(result, metadata=metadata)
+                    if results:
+                        await asyncio.gather(*results)
+                    self._release_refs(metadata)
+        finally:
+            stopped.cancel()
 
     async def _wait_for_work_slot(self):
         while self.work_queue.full():
